@@ -205,6 +205,20 @@ class StateDom(object):
             b = self.ev(e.comparators[0], env, frame)
             op = e.ops[0]
             return self._compare(a, op, b)
+        if isinstance(e, ast.BinOp) and isinstance(
+                e.op, (ast.Add, ast.Sub, ast.Mult)):
+            # small-integer arithmetic (count / capacity decision tables)
+            a = self.ev(e.left, env, frame)
+            b = self.ev(e.right, env, frame)
+            if a is RAISES or b is RAISES:
+                return RAISES
+            if _num(a) and _num(b):
+                if isinstance(e.op, ast.Add):
+                    return a + b
+                if isinstance(e.op, ast.Sub):
+                    return a - b
+                return a * b
+            return UNK
         if isinstance(e, ast.IfExp):
             t = self.truth(self.ev(e.test, env, frame))
             if t is RAISES:
@@ -282,6 +296,16 @@ class StateDom(object):
                 except TypeError:
                     return UNK
             return r if isinstance(op, ast.In) else (not r)
+        if isinstance(op, (ast.Lt, ast.LtE, ast.Gt, ast.GtE)):
+            if _num(a) and _num(b):
+                if isinstance(op, ast.Lt):
+                    return a < b
+                if isinstance(op, ast.LtE):
+                    return a <= b
+                if isinstance(op, ast.Gt):
+                    return a > b
+                return a >= b
+            return UNK
         return UNK
 
     def _resolve_callee(self, e, frame):
@@ -339,8 +363,25 @@ class StateDom(object):
             return UNK
         return self.interp(f, [], env, frame, {}, recv=e.value)
 
+    _ISINSTANCE = {'int': int, 'str': str, 'dict': dict, 'list': list,
+                   'tuple': tuple, 'bool': bool, 'float': float}
+
     def _call(self, e, env, frame):
         if e.keywords and any(k.arg is None for k in e.keywords):
+            return UNK
+        if isinstance(e.func, ast.Name) and e.func.id == 'isinstance' and \
+                len(e.args) == 2 and not e.keywords and \
+                e.func.id not in frame.subst:
+            v = self.ev(e.args[0], env, frame)
+            ts = e.args[1].elts if isinstance(e.args[1], ast.Tuple) \
+                else [e.args[1]]
+            if v is RAISES:
+                return RAISES
+            if v is not UNK and not _is(v, (OTHER, OBJ)) and all(
+                    isinstance(t, ast.Name) and t.id in self._ISINSTANCE
+                    for t in ts):
+                return isinstance(v, tuple(self._ISINSTANCE[t.id]
+                                           for t in ts))
             return UNK
         f, recv = self._resolve_callee(e, frame)
         if f is None:
@@ -416,7 +457,7 @@ class StateDom(object):
     # ---- dataflow -----------------------------------------------------
     def analyze(self, cfg, func, variables, init=None, kill=None,
                 assume=None, alias=None, block=None, ghost=None,
-                types=None):
+                types=None, inline=None):
         """Forward dataflow.  variables: list of (key, domain) where key is
         the dotted text of an access path / local name in `func`.
         Returns {node.id: set(valuation tuples)} (valuations before the
@@ -432,6 +473,11 @@ class StateDom(object):
         self._textkeys = any(('(' in k or '[' in k or ' ' in k)
                              for k in keys) or bool(self._alias)
         frame = Frame(func.module, {}, None, func)
+        if inline:
+            # single-definition locals evaluated through their defining
+            # expression (decision tables phrased over a few inputs)
+            for name, expr in inline.items():
+                frame.subst[name] = (expr, frame)
         if init is None:
             start = set(itertools.product(*doms))
         else:
@@ -606,6 +652,10 @@ class StateDom(object):
 
 
 _FALLTHROUGH = object()
+
+
+def _num(v):
+    return isinstance(v, (int, float)) and not isinstance(v, bool)
 
 
 def _is(v, options):
